@@ -1,18 +1,51 @@
-// C14 user object: receive_snoop logs (length, position-weighted checksum) of the text the driver forwards;
+// C14 user object: receive_snoop logs (length, position-weighted checksum) of the text the driver forwards and then
+// carries out the next scripted reaction (add_react), so that add_message() is re-entered from inside add_message():
+//   e     echo the first 2000 bytes of the text to this user (receive)
+//   t<j>  tell_object (user j, "[<me>><j>]\n")        (only if user j is still interactive)
+//   d<j>  destruct (user j)                           (only if user j is still interactive; j may be this user)
+//   x     error ()                                    n (or anything else)  nothing
 // do_flush calls the flush_messages() efun (with this object / without argument = every user)
 #include "/include/vcommon.h"
 string oid = "?";
+string *react = ({ });
 void create () { seteuid (getuid ()); }
 void set_oid (string s) { oid = s; }
+string query_oid () { return oid; }
+void add_react (string s) { react += explode (s, ","); }
 void logon () { }
 void net_dead () { }
+object find_user (string j) {
+  object *us;
+  int i;
+  us = users ();
+  for (i = 0; i < sizeof (us); i++)
+    if ((string) us[i]->query_oid () == j) return us[i];
+  return 0;
+}
 void receive_snoop (string s) {
   int i, n, sum;
+  string tok;
+  object ob;
   n = strlen (s);
   sum = 0;
   for (i = 0; i < n; i++)
     sum = (sum + (i + 1) * (s[i] & 255)) % 65521;
   VL("u" + oid + " snoop " + n + " " + sum);
+  if (!sizeof (react)) return;
+  tok = react[0];
+  react = react[1..];
+  if (tok == "e") {
+    if (n > 2000) s = s[0..1999];
+    receive (s);
+  } else if (tok[0] == 't') {
+    ob = find_user (tok[1..]);
+    if (ob) tell_object (ob, "[" + oid + ">" + tok[1..] + "]\n");
+  } else if (tok[0] == 'd') {
+    ob = find_user (tok[1..]);
+    if (ob) destruct (ob);
+  } else if (tok == "x") {
+    error ("react\n");
+  }
 }
 void do_flush (string all) {
   if (all == "all") flush_messages ();
